@@ -135,7 +135,7 @@ def shard_runs(binary, total, seed0, args, wd, timeout, tag="s"):
         i, s, cnt = job
         # the shard stops starting new cases after 60% of its wall-clock limit and reports what it completed (a shard killed by the
         # limit would report nothing and count as a harness failure); the budget never changes what happens inside a case
-        cmd = [binary, "--seed", str(s), "--n", str(cnt), "--faildir", wd, "--budget", str(int(timeout * 0.6))] + list(args)
+        cmd = [binary, "--seed", str(s), "--n", str(cnt), "--faildir", wd, "--budget", str(int(min(timeout * 0.6, float(os.environ.get("VERIF_BUDGET_S", "1e9")))))] + list(args)
         t0 = time.time()
         rc, out, err = run_proc(cmd, timeout, cpu=cs[i % len(cs)])
         res = {"shard": i, "seed0": s, "n": cnt, "rc": rc, "wall": time.time() - t0, "summary": None, "fails": [], "stderr": err[-6000:], "cmd": cmd}
